@@ -97,3 +97,72 @@ def engine_suite(run, scratch, seed, n, oracle_fns=(), profile=None, name="engin
                     "op histories pruned against the model to be mostly valid; non-trivial = distinct (tree, ops, "
                     "settings) with >= 4 executed ops including a trade",
             "samples": samples}
+
+
+def backtest_suite(run, scratch, seed, n, name="backtest_runs", oracle_fns=(), known=(), gen=None):
+    """whole backtests (random stock-algo stacks, flat / nested / fixed-income trees); final raw state of every
+    node incl. all history rows, the paper copies and the per-run temp traces compared with the model"""
+    import backtest_corr
+    import gen_backtest
+    cases = (gen or gen_backtest.gen_cases)(seed, n)
+    corpus_dir = os.path.join(common.VERIF, "corpus", name)
+    if os.path.isdir(corpus_dir):
+        for f in sorted(os.listdir(corpus_dir)):
+            if f.endswith(".json"):
+                c = json.load(open(os.path.join(corpus_dir, f)))
+                c["name"] = "corpus_" + f[:-5]
+                cases.insert(0, c)
+    res = backtest_corr.run_cases(cases, scratch)
+    tally = {"equal": 0, "drift": 0, "diff": 0}
+    err_hist, algo_hist, nontrivial = {}, {}, set()
+    first_diff = None
+    oracle_evals = oracle_fails = 0
+    for c, v, d, ic, mc in res:
+        tally[v] = tally.get(v, 0) + 1
+        if ic:
+            st = ic["steps"][-1]["status"]
+            k = st[2] if len(st) > 2 and st[1] == "err" else "completed"
+            err_hist[k] = err_hist.get(k, 0) + 1
+            if k == "completed":
+                state = ic["steps"][-1]["state"]
+                if any(key.endswith(" h_outlays") and any(common.tok_val(t) != 0 for t in toks) for key, toks in state.items()):
+                    nontrivial.add(json.dumps([c["tree"], c["dates"][:3]]))
+                for label, fn in oracle_fns:
+                    oracle_evals += 1
+                    fails = fn(c, ic)
+                    if fails:
+                        hit = [kid for kid, kf in known if kf(c, ic, fails)]
+                        if hit:
+                            for h in hit:
+                                run.known_seen.add(h)
+                            continue
+                        oracle_fails += 1
+                        if oracle_fails <= 3:
+                            run.violation({"suite": name, "case": c, "oracle": label, "failures": fails[:6]},
+                                          "%s oracle fails on backtest %s: %s" % (label, c["name"], fails[0]))
+
+        def walk(t):
+            if t[0] == "strat":
+                for a in t[4]:
+                    algo_hist[a[0]] = algo_hist.get(a[0], 0) + 1
+                for k in t[3]:
+                    walk(k)
+        walk(c["tree"])
+        if v == "diff" and first_diff is None:
+            first_diff = (c, d)
+    if tally["diff"]:
+        c, d = first_diff
+        run.violation({"suite": name, "case": c, "difference": d, "n_disagreeing_cases": tally["diff"],
+                       "broken": "correspondence %s (model Algos.v/Engine.v vs bt/algos.py, bt/backtest.py, bt/core.py)" % name},
+                      "correspondence %s: implementation and model disagree on %d of %d backtests; first: %s %s"
+                      % (name, tally["diff"], len(cases), c["name"], json.dumps(d)[:300]))
+    return {"evaluations": len(cases), "distinct_nontrivial": len(nontrivial),
+            "traces_validated_against_impl": tally["equal"] + tally["drift"], "bit_drift": tally["drift"],
+            "disagreements": tally["diff"], "final_status_histogram": err_hist, "algo_histogram": algo_hist,
+            "oracle_evaluations": oracle_evals, "oracle_failures": oracle_fails,
+            "rule": "seeded random backtests: 6-24 dates on real calendars (year ends, ISO week 53, leap day, gaps), "
+                    "2-6 tickers with late listings / NaN gaps / zero prices, flat, nested (parent allocating between "
+                    "sub-strategies with lazy string children) and fixed-income trees, stacks assembled from the stock "
+                    "algos, 5 commission families, spreads, integer/fractional; non-trivial = completed run with at "
+                    "least one trade, distinct by (tree, first dates)",
+            "samples": [{"name": c["name"], "tree": c["tree"], "dates": c["dates"][:4]} for c in cases[:2]]}
